@@ -441,6 +441,9 @@ def check_class_split(P, R, key="factor_analysis:FactorAnalysisBase.fit_using_ar
                         fn = src(itx.func).split(".")[-1] if isinstance(itx, ast.Call) else None
                         sorted_src = fn in SORTED_LABEL_SOURCES and not any(k_.arg in ("return_index", "return_inverse") for k_ in getattr(itx, "keywords", []))
                         R.check(sorted_src, rule + "-order", key, f"for {cv} in {src(itx)[:50]}", "classes in sorted label order (position = class id)", f"the classes are visited in the order given by `{src(itx)[:50]}`, which is not the sorted label order: downstream code addresses the partitions by position as class id (enumerate), so classes are crossed when the labels do not appear in sorted order", lp.lineno)
+                        # the labels are split alongside: another list is appended a selection of y by the same mask in the same loop
+                        sib = [c2 for c2 in walk_no_nested(lp) if isinstance(c2, ast.Call) and isinstance(c2.func, ast.Attribute) and c2.func.attr == "append" and c2 is not call and c2.args and isinstance(c2.args[0], ast.Subscript) and src(c2.args[0].value) in ("y",)]
+                        R.check(bool(sib), rule + "-labels", key, f"labels of class {cv} appended alongside", "", "the per-class label list is not filled alongside the per-class data list: zip(X, y) then drops classes", lp.lineno)
                         a = call.args[0] if call.args else None
                         ok_sel = False
                         if isinstance(a, ast.Subscript):
